@@ -44,7 +44,7 @@ class C15(Check):
                    'shutdown order is required for every configured attachment between existing modules, whether or '
                    'not it was used before']
     PROBES = ('c15.attachment-edge', 'c15.cyclic', 'c15.missing-target', 'c15.wrong-type', 'c15.pinata', 'c15.shared-io',
-              'c15.failing-init', 'c15.hanging-first-poll', 'c15.configured-write', 'c15.shutdown-during-read',
+              'c15.failing-init', 'c15.hanging-first-poll', 'c15.configured-write', 'c15.shutdown-during-read', 'c15.restart',
               'c15.unexported-module', 'fault.first-read-comfail')
 
     def gen_case(self, rng, tier):
@@ -103,7 +103,10 @@ class C15(Check):
                  'mods': mods, 'decl': decl, 'err': err,
                  'pinata': rng.random() < 0.2, 'shared_io': rng.random() < 0.25,
                  'hang': rng.random() < 0.06, 'run_time': rng.choice([0.5, 3.0]),
-                 'shutdown_in_read': rng.random() < 0.3, 'read_dur': rng.choice([0.1, 0.2, 0.3, 0.7])}
+                 'shutdown_in_read': rng.random() < 0.3, 'read_dur': rng.choice([0.1, 0.2, 0.3, 0.7]),
+                 # Server.run() after Server.restart(): shut down, then the same configuration is started again in
+                 # the same process; the second generation is judged like the first
+                 'restart': rng.random() < 0.2}
         return {'shape': shape, 'ops': []}
 
     # ------------------------------------------------------------------ run
@@ -118,6 +121,7 @@ class C15(Check):
                 log.append((sim.next_seq(), sim.vnow()) + ev)
 
         classes = []
+        all_states = []
 
         from frappy.core import Property, StringType
 
@@ -158,6 +162,7 @@ class C15(Check):
             ns['setp'] = Parameter('configurable', FloatRange(), default=0, readonly=False)
             ns['enablePoll'] = m['poll']
             state = {'polled': False, 'used': set()}
+            all_states.append(state)
 
             def touch(self, phase):
                 for a in m['atts']:
@@ -308,30 +313,44 @@ class C15(Check):
             cfg = dict(items)
         ctx['cleanup'] = [lambda: env.forget_classes(*classes), HasIO.ioDict.clear]
         srv = world.make_server('n', cfg)
-        ctx['exit'] = None
-        t0 = sim.vnow()
-        try:
-            srv._processCfg()
-            rec('ready')
-        except SystemExit as e:
-            ctx['exit'] = ('SystemExit', e.code)
-            rec('exit')
-        except Exception as e:   # noqa
-            ctx['exit'] = (type(e).__name__, str(e)[:200])
-            rec('exit')
-        ctx['startup_time'] = sim.vnow() - t0
-        ctx['errors'] = list(getattr(srv.secnode, 'errors', ()))
-        ctx['created'] = list(srv.secnode.modules)
-        if ctx['exit'] is None:
-            time.sleep(shape['run_time'])
-            rec('shutdown-begin')
+
+        def generation():
+            ctx['exit'] = None
+            t0 = sim.vnow()
             try:
-                srv.secnode.shutdown_modules()
+                srv._processCfg()
+                rec('ready')
+            except SystemExit as e:
+                ctx['exit'] = ('SystemExit', e.code)
+                rec('exit')
             except Exception as e:   # noqa
-                ctx['shutdown_exc'] = repr(e)
-            rec('shutdown-end')
-            time.sleep(2)
-            ctx['pollers_alive'] = sorted(t.name for t in sim.tasks if t.state != 'done' and 'pollThread' in t.name)
+                ctx['exit'] = (type(e).__name__, str(e)[:200])
+                rec('exit')
+            ctx['startup_time'] = sim.vnow() - t0
+            ctx['errors'] = list(getattr(srv.secnode, 'errors', ()))
+            ctx['created'] = list(srv.secnode.modules)
+            if ctx['exit'] is None:
+                time.sleep(shape['run_time'])
+                rec('shutdown-begin')
+                try:
+                    srv.secnode.shutdown_modules()
+                except Exception as e:   # noqa
+                    ctx['shutdown_exc'] = repr(e)
+                rec('shutdown-end')
+                time.sleep(2)
+                ctx['pollers_alive'] = sorted(t.name for t in sim.tasks if t.state != 'done' and 'pollThread' in t.name)
+        generation()
+        if shape.get('restart') and ctx['exit'] is None:
+            sim.count('c15.restart')
+            ctx['gen1'] = {k: (list(ctx[k]) if isinstance(ctx[k], list) else ctx[k])
+                           for k in ('log', 'exit', 'startup_time', 'errors', 'created', 'pollers_alive', 'shutdown_exc')
+                           if k in ctx}
+            del log[:]
+            ctx.pop('shutdown_exc', None)
+            for st in all_states:
+                st.update(polled=False, used=set())
+            srv.restart_hook()
+            generation()
 
     # ------------------------------------------------------------------ oracle
     def observation(self, sim, case, ctx):
@@ -342,6 +361,16 @@ class C15(Check):
         return bool(shape['err']) or any(a['kind'] == 'ok' for m in shape['mods'] for a in m['atts'])
 
     def judge(self, sim, case, ctx):
+        if 'gen1' in ctx:
+            res = self.judge_gen(sim, case, ctx['gen1'])
+            if res:
+                return res
+            return [Violation(v['rule'], v['sig'][len(v['rule']) + 1:] + '|restarted',
+                              'second generation (after a restart): ' + v['msg'])
+                    for v in self.judge_gen(sim, case, ctx)]
+        return self.judge_gen(sim, case, ctx)
+
+    def judge_gen(self, sim, case, ctx):
         res = []
         shape = case['shape']
         log = ctx['log']
